@@ -704,6 +704,7 @@ func (x *Exec) resetPath() {
 	x.observes = x.observes[:0]
 	x.reached = map[string]bool{}
 	x.mapOrder = 1
+	x.unwind = x.unwind0
 	x.mapRot = -1
 	x.mapWalks = 0
 	x.mdl = nil
@@ -964,7 +965,7 @@ type Config struct {
 }
 
 func newExec(P *Program, sol *Solver, R *Results, cfg Config) *Exec {
-	x := &Exec{P: P, tb: NewTB(), sol: sol, R: R, tier: cfg.Tier, feasTimeout: cfg.TimeoutMs, assertTimeout: 2 * cfg.TimeoutMs, unwind: cfg.Unwind, stepLimit: cfg.StepLimit, casemax: cfg.CaseMax, trace: cfg.Trace,
+	x := &Exec{P: P, tb: NewTB(), sol: sol, R: R, tier: cfg.Tier, feasTimeout: cfg.TimeoutMs, assertTimeout: 2 * cfg.TimeoutMs, unwind: cfg.Unwind, unwind0: cfg.Unwind, stepLimit: cfg.StepLimit, casemax: cfg.CaseMax, trace: cfg.Trace,
 		funcsSeen: map[*ssa.Function]int64{}, stubsSeen: map[string]int64{}, bounds: map[string]int64{}}
 	if rt := P.prog.ImportedPackage("runtime"); rt != nil {
 		x.rtErrType = rt.Type("errorString").Object().Type()
